@@ -210,7 +210,11 @@ def compare(impl_out, model_out):
         tail = " scheme=" + tail
     cut = model_out.rfind(" ")
     head, cands = model_out[:cut + 1], model_out[cut + 1:].split("|")
-    return any(impl_out == head + c + tail for c in cands)
+    if not impl_out.startswith(head) or not impl_out.endswith(tail):
+        return False
+    rows = impl_out[len(head):len(impl_out) - len(tail)]
+    digest = "md5:" + hashlib.md5(rows.encode()).hexdigest()   # large candidates are printed as MD5
+    return any(c == rows or c == digest for c in cands)
 
 
 def _rows(impl_out):
@@ -224,7 +228,10 @@ def oracle_lines(lines, impl_outs):
         t = l.split(" ")
         tag = t[0]
         if tag in ("qr", "qrc") and o and o.startswith("OK "):
-            res.append("qrdec " + _rows(o))
+            a = t[1:] if tag == "qr" else t[2:]
+            res.append("qrdec %s %s %s %s" % (_rows(o), a[0], a[1], a[2]))
+        elif tag == "qr" and o == "ERR" and 0 <= int(t[2]) < 4:
+            res.append("qrrep %s %s %s" % (t[1], t[2], t[3]))
         elif tag == "qrrender" and o and "/" in o:
             res.append("qrdec " + o)
         elif tag == "qrfmt" and o and "/" in o:
@@ -270,6 +277,8 @@ def oracle_verdict(line, impl_out, oracle_out):
         return None if oracle_out == impl_out else "character count width differs from ISO Table 3 (%s)" % oracle_out
     if t[0] == "qrtdb":
         return None if oracle_out == impl_out else "data codewords differ from ISO Table 9 (%s)" % oracle_out
+    if t[0] == "qr" and impl_out == "ERR":
+        return None if oracle_out == "0" else "content is representable (level, alphabet, capacity) but was refused"
     if t[0] == "qrc":
         t = t[:1] + t[2:]
     level, content = int(t[1]), t[3]
@@ -283,6 +292,8 @@ def oracle_verdict(line, impl_out, oracle_out):
         return "symbol is not structurally valid (pad=%s rem=%s)" % (f["pad"], f["rem"])
     if not (0 <= level < 4) or f["l"] != LEVELS[level]:
         return "format information names level %s, requested %d" % (f["l"], level)
+    if f.get("minv") != f["v"]:
+        return "version %s although version %s holds the content in the mode used" % (f["v"], f.get("minv"))
     return None
 
 
